@@ -1,0 +1,112 @@
+//! Verification hooks (compiled only with the cargo feature `verif-hooks`).
+//!
+//! `rng()` is a drop-in replacement for `rand::thread_rng()` whose output is a
+//! deterministic byte stream: first the bytes of an installed script, then a
+//! splitmix64 stream derived from the installed seed. Every byte handed out is
+//! logged, so that a verification harness can replay exactly the same draws
+//! against a model.
+use rand::RngCore;
+use std::cell::RefCell;
+
+struct State {
+    script: Vec<u8>,
+    pos: usize,
+    sm: u64,
+    buf: [u8; 8],
+    buf_pos: usize,
+    log: Vec<u8>,
+}
+
+const LOG_CAP: usize = 1 << 24;
+
+thread_local! {
+    static STATE: RefCell<State> = const { RefCell::new(State {
+        script: Vec::new(),
+        pos: 0,
+        sm: 0x9E37_79B9_7F4A_7C15,
+        buf: [0; 8],
+        buf_pos: 8,
+        log: Vec::new(),
+    }) };
+}
+
+/// Installs a seed and a script for the current thread and clears the log.
+pub fn install(seed: u64, script: Vec<u8>) {
+    STATE.with(|s| {
+        let mut s = s.borrow_mut();
+        s.script = script;
+        s.pos = 0;
+        s.sm = seed;
+        s.buf_pos = 8;
+        s.log.clear();
+    });
+}
+
+/// Returns (and clears) the bytes handed out since the last `install`/`take_log`.
+pub fn take_log() -> Vec<u8> {
+    STATE.with(|s| std::mem::take(&mut s.borrow_mut().log))
+}
+
+fn next_byte() -> u8 {
+    STATE.with(|s| {
+        let mut s = s.borrow_mut();
+        let b = if s.pos < s.script.len() {
+            let b = s.script[s.pos];
+            s.pos += 1;
+            b
+        } else {
+            if s.buf_pos == 8 {
+                // splitmix64
+                s.sm = s.sm.wrapping_add(0x9E37_79B9_7F4A_7C15);
+                let mut z = s.sm;
+                z = (z ^ (z >> 30)).wrapping_mul(0xBF58_476D_1CE4_E5B9);
+                z = (z ^ (z >> 27)).wrapping_mul(0x94D0_49BB_1331_11EB);
+                z ^= z >> 31;
+                s.buf = z.to_le_bytes();
+                s.buf_pos = 0;
+            }
+            let b = s.buf[s.buf_pos];
+            s.buf_pos += 1;
+            b
+        };
+        if s.log.len() < LOG_CAP {
+            s.log.push(b);
+        }
+        b
+    })
+}
+
+/// Handle to the thread-local scripted generator.
+pub struct ScriptRng;
+
+/// Replacement for `rand::thread_rng()`.
+pub fn rng() -> ScriptRng {
+    ScriptRng
+}
+
+/// Consumes the generator it replaces (avoids an unused-variable warning at the call site).
+pub fn shadow<T>(_original: T) -> ScriptRng {
+    ScriptRng
+}
+
+impl RngCore for ScriptRng {
+    fn next_u32(&mut self) -> u32 {
+        let mut b = [0u8; 4];
+        self.fill_bytes(&mut b);
+        u32::from_le_bytes(b)
+    }
+    fn next_u64(&mut self) -> u64 {
+        let mut b = [0u8; 8];
+        self.fill_bytes(&mut b);
+        u64::from_le_bytes(b)
+    }
+    fn fill_bytes(&mut self, dest: &mut [u8]) {
+        for d in dest.iter_mut() {
+            *d = next_byte();
+        }
+    }
+    fn try_fill_bytes(&mut self, dest: &mut [u8]) -> Result<(), rand::Error> {
+        self.fill_bytes(dest);
+        Ok(())
+    }
+}
